@@ -32,6 +32,9 @@ theorem c12_snapshot (r : Rep) (h : ChainWF r) (n : String) (u : Bool) : ChainWF
   by_cases h1 : (!r.isOpen) = true
   · simp only [h1, if_true]; exact h
   · simp only [h1, if_false]
+    by_cases h0 : r.dd.top + 2 > r.chainLimit
+    · rw [if_pos h0]; exact h
+    rw [if_neg h0]
     by_cases h2 : r.indexOf n ≠ 0
     · rw [if_pos h2]; exact h
     · have h2' : r.indexOf n = 0 := by simpa using h2
@@ -50,13 +53,37 @@ theorem c12_snapshot (r : Rep) (h : ChainWF r) (n : String) (u : Bool) : ChainWF
         · show (r.names ++ [n]).length + 1 = r.dd.top + 1
           simp; exact h.2
 
+/-- **C12 (chain limit).** A snapshot is accepted only while the chain it produces still passes the
+    length check of the next open, so the hypothesis of `c12_reopen` holds in every reachable state
+    whose limit was not lowered (the two expressions are tied to the source by `Tie.chainLimit`). -/
+theorem c12_snapshot_keeps_openable (r : Rep) (n : String) (u : Bool) (hl : r.dd.top ≤ r.chainLimit) :
+    (r.step (.snap n u)).1.dd.top ≤ (r.step (.snap n u)).1.chainLimit := by
+  unfold Rep.step
+  by_cases h1 : (!r.isOpen) = true
+  · simp only [h1, if_true]; exact hl
+  · simp only [h1, if_false]
+    by_cases h0 : r.dd.top + 2 > r.chainLimit
+    · rw [if_pos h0]; exact hl
+    rw [if_neg h0]
+    by_cases h2 : r.indexOf n ≠ 0
+    · rw [if_pos h2]; exact hl
+    · rw [if_neg h2]
+      by_cases h3 : r.orphans.contains n = true
+      · simp only [h3, if_true]; exact hl
+      · simp only [h3, if_false]
+        show r.dd.top + 1 ≤ r.chainLimit
+        omega
+
 theorem c12_snapshot_dup_refused (r : Rep) (n : String) (ho : r.isOpen = true) (hn : r.indexOf n ≠ 0) (u : Bool) :
     r.step (.snap n u) = (r, .refused) := by
-  unfold Rep.step; simp [ho, hn]
+  unfold Rep.step; simp only [ho, Bool.not_true, Bool.false_eq_true, if_false]
+  split
+  · rfl
+  · first | rfl | rw [if_pos hn]
 
 /-- **C12 (reopen).** Close + open, reload and plain observation requests change neither the chain
     nor any member's attributes nor any member's content. -/
-theorem c12_reopen (r : Rep) (p : Bool) :
+theorem c12_reopen (r : Rep) (p : Bool) (hl : r.dd.top ≤ r.chainLimit) :
     (r.step (.reopen p)).1.names = r.names ∧ (r.step (.reopen p)).1.dd.uc = r.dd.uc ∧
     (r.step (.reopen p)).1.dd.rm = r.dd.rm ∧ (r.step (.reopen p)).1.dd.top = r.dd.top ∧
     (r.step (.reopen p)).1.rev = r.rev ∧ (r.step (.reopen p)).1.ckpt = r.ckpt ∧
@@ -66,6 +93,8 @@ theorem c12_reopen (r : Rep) (p : Bool) :
   by_cases h : (!r.isOpen) = true
   · simp [h]
   · simp only [h, if_false]
+    have hl' : ¬ r.dd.top > r.chainLimit := by omega
+    rw [if_neg hl']
     have e : r.dd.reopen p = if p then (DD.fresh r.dd).preload else DD.fresh r.dd := rfl
     refine ⟨rfl, ?_, ?_, DD.reopen_top r.dd p, rfl, rfl, ?_, fun i u => DD.view_reopen r.dd p i u⟩
     · show (r.dd.reopen p).uc = r.dd.uc; rw [e]; split <;> rfl
